@@ -268,6 +268,18 @@ def D22():
     return got != want, f'TTC trees {got} (expected {want})'
 
 
+def D3():
+    lg, lcf, m, h1, h2, apps = base()
+    l2 = lcf.ns.Link(); l2.prv = [h2]; l2.nxt = [h1]; m.add_association(l2)   # h1 <-> h2 cycle
+    try:
+        g = AttackGraph(lg, m)
+    except RecursionError:
+        return True, 'cyclic Link association: AttackGraph generation raises RecursionError'
+    got = sorted(c.full_name for c in g.get_node_by_full_name('h1:trans').children)
+    ok = set(got) >= {'h2:connect'} and set(got) <= {'h1:connect', 'h2:connect'}
+    return not ok, f'nxt*.connect from h1 on a 2-cycle -> {got}'
+
+
 if __name__ == '__main__':
     ids = sys.argv[1:] or sorted((k for k in globals() if k[0] == 'D' and k[1:].isdigit()),
                                  key=lambda s: int(s[1:]))
